@@ -93,6 +93,9 @@ Definition prims := string -> list value -> st -> option (value * st).
 Section Interp.
   Context (P : prims).
   Context (fcmp : string -> fterm -> fterm -> bool).   (* float comparison oracle *)
+  (* what a range loop over a collection does as a whole (loops are not unrolled: a tie file recognises the
+     body it expects and says what the loop amounts to; None = not recognised) *)
+  Context (loop : string -> string -> value -> list gstmt -> st -> option st).
   Context {R : Type} (kret : list value -> st -> R) (kbad : string -> R).
 
   Definition to_f (v : value) : option fterm :=
@@ -133,7 +136,7 @@ Section Interp.
   Definition assign1 (l : gexpr) (v : value) (s : st) : option st :=
     match l with
     | GId x => Some (bind x v s)
-    | GLeaf p => if String.eqb p "_" then Some s else Some (bind p v s)
+    | GLeaf p => if String.eqb p "_" then Some s else Some (emit ("assign " ++ p) [v] (bind p v s))   (* a store to shared state is an effect *)
     | _ => None
     end.
 
@@ -251,7 +254,10 @@ Section Interp.
       | GSwitch tag cs => eval fuel' tag s (fun v s1 => cases v cs None s1)
       | GReturn es => eval_list fuel' es s (fun vs s1 => kret (spread 0 vs) s1)
       | GBlock l => exec_list l s k
-      | GRange _ _ _ _ => kbad "loop"
+      | GRange kv vv coll body =>
+          eval fuel' coll s (fun cv s1 => match loop kv vv cv body s1 with
+                                          | Some s2 => k s2
+                                          | None => kbad "loop not recognised" end)
       | GWhile _ _ => kbad "loop"
       | GDefer e =>
           match e with
@@ -296,6 +302,8 @@ Fixpoint first_range (fuel : nat) (l : list gstmt) : option (string * string * l
     | _ :: r => first_range fuel' r
     end
   end.
+
+Definition no_loop (k v : string) (c : value) (body : list gstmt) (s : st) : option st := None.
 
 Definition effects_named (f : string) (l : list effect) : list (list value) :=
   map snd (filter (fun e => String.eqb (fst e) f) l).
